@@ -613,7 +613,7 @@ package analysis
 // document heaps and the index heaps: reload establishes it (its definition, proved as C11-C14), any write to a
 // document or index heap destroys the knowledge.
 //@ fun synced(s *Spec) bool reads heaps DOC, heaps INDEX
-//@ heaps FCTX = context, newRef, map[string]*newRef, []string, FlattenOpts
+//@ heaps FCTX = context, newRef, map[string]*newRef, []string
 
 //@ func (s *Spec) reload()
 //@   assumed
@@ -623,8 +623,8 @@ package analysis
 
 //@ func importExternalReferences(opts)
 //@   assumed
-//@   modifies heaps DOC, heaps FCTX
-//@   ensures opts.Spec == old(opts.Spec)
+//@   modifies heaps DOC, heaps FCTX, opts.flattenContext
+//@   ensures old(opts.flattenContext) != nil ==> opts.flattenContext == old(opts.flattenContext)
 
 //@ func (isn *InlineSchemaNamer) Name(key, schema, aschema)
 //@   assumed
@@ -633,12 +633,10 @@ package analysis
 //@ func stripOAIGenForRef(opts, k, r)
 //@   assumed
 //@   modifies heaps DOC, heaps FCTX
-//@   ensures opts.Spec == old(opts.Spec)
 
 //@ func flattenAnonPointer(key, v, refsToReplace, namer, opts)
 //@   assumed
 //@   modifies heaps DOC, heaps FCTX, heap map[string]SchemaRef
-//@   ensures opts.Spec == old(opts.Spec)
 
 //@ func updateRefParents(allRefs, r)
 //@   assumed
